@@ -247,6 +247,7 @@ def shards(tier):
         for chunk in range(N_CHUNKS):
             out.append([8, circ, "hybrids5", chunk, tier])
             out.append([8, circ, "hybrids7", chunk, tier])
+            out.append([8, circ, "hybrids6", chunk, tier])
     plans = [(6, False, 3), (6, True, 3)]
     if tier == "thorough":
         plans += [(6, False, 4), (6, True, 4), (7, True, 3)]
@@ -336,9 +337,41 @@ def three_hybrids_plus_one(nslots, circ):
                     yield pairs + [x]
 
 
+def two_hybrids_plus_two(nslots, circ):
+    """six protoclusters: two chemical hybrid pairs and two further single-slot protoclusters (a chain candidate - single - single -
+    candidate is only one neighbouring group through the link between the two singles)"""
+    L = nslots * P.SLOT
+    singles = [m for m in P.protocluster_menu(nslots, circ, max_core=1, products=("p",), neighbourhoods=((0, 0), (1, 1)))
+               if P.make_protocluster(L, circ, m) is not None]
+    evens = [s for s in range(0, nslots - 1, 2)]
+    for s1, s2 in itertools.combinations(evens, 2):
+        for n1 in HYBRID_NEIGHBOURHOODS[:3]:
+            for n2 in HYBRID_NEIGHBOURHOODS[:3]:
+                pairs = [[s1, s1, n1[0], n1[1], "p"], [s1, s1 + 1, n1[0], n1[1], "q"], [s2, s2, n2[0], n2[1], "p"], [s2, s2 + 1, n2[0], n2[1], "q"]]
+                if any(P.make_protocluster(L, circ, m) is None for m in pairs):
+                    continue
+                for x, y in itertools.combinations(singles, 2):
+                    if x not in pairs and y not in pairs:
+                        yield pairs + [x, y]
+
+
 def run_two_hybrids(shard):
     nslots, circ, kind, chunk, tier = shard
     res = Result()
+    if kind == "hybrids6":
+        for index, specs in enumerate(two_hybrids_plus_two(nslots, circ)):
+            if index % N_CHUNKS != chunk:
+                continue
+            res.evals += 1
+            res.nontrivial += 1
+            fails = check_config(nslots, circ, specs, orders=[tuple(range(6)), (5, 3, 1, 4, 2, 0)], stats=res.buckets)
+            res.outcomes[("hybrids6", tuple(sorted(c.split(":")[0] for c, _ in fails)))] += 1
+            if fails or res.evals % 1009 == 1:
+                case = {"nslots": nslots, "circ": circ, "specs": specs}
+                for clause, detail in fails:
+                    res.fail(case, clause, detail)
+                res.sample(case)
+        return res
     if kind == "hybrids7":
         for index, specs in enumerate(three_hybrids_plus_one(nslots, circ)):
             if index % N_CHUNKS != chunk:
@@ -371,7 +404,7 @@ def run_two_hybrids(shard):
 def run_shard(shard):
     if shard[2] == "coincide4":
         return run_coincide4(shard)
-    if shard[2] in ("hybrids5", "hybrids7"):
+    if shard[2] in ("hybrids5", "hybrids6", "hybrids7"):
         return run_two_hybrids(shard)
     nslots, circ, size, chunk, tier = shard
     res = Result()
